@@ -111,8 +111,68 @@ def monitor_run(ctx):
                                      {"n": n, "family": fam, "target_state": t, "preserve_previous": preserve})
 
 
+def preserve_monitor(ctx):
+    """hypotheses of C12_preserve_below_target on every preserve-mode run with a vector vanishing below the target index: (a) every
+    multiplexer entry whose index lies below the target's is exactly the identity, (b) the pulled-out gate sends |0> to a multiple of
+    |0> whenever target bit k is 1, and the pulled-out gate is controlled on every other qubit holding its target bit"""
+    from qiskit.circuit import ControlledGate
+    from qclib.state_preparation.ucg import UCGInitialize
+    from harness import monitors
+    nmax = 5 if ctx.quick else 6
+    for n in range(2, nmax + 1):
+        N = 2 ** n
+        for t in sorted({1, N // 2, N - 1} | {int(x) for x in ctx.rng.integers(1, N, 4)}):
+            v = ctx.rng.normal(size=N) + 1j * ctx.rng.normal(size=N)
+            v[:t] = 0
+            if ctx.rng.random() < 0.3 and t + 1 < N:
+                v[t + 1 + int(ctx.rng.integers(0, N - t - 1))] = 0          # extra zeros inside the support
+            if not v.any():
+                v[t] = 1
+            v = v / np.linalg.norm(v)
+            log = []
+
+            def pp_factory(orig):
+                def wrapped(self, mux, mult_controls, r_gate, target):
+                    out = np.array(mux[r_gate], dtype=complex)
+                    res = orig(self, mux, mult_controls, r_gate, target)
+                    log.append((int(target), int(r_gate), out, [np.array(m, dtype=complex) for m in mux]))
+                    return res
+                return wrapped
+            case = {"class": "UCGInitialize", "n": n, "t": t, "preserve": True, "family": "preserve_monitor",
+                    "vector": [[float(np.real(z)), float(np.imag(z))] for z in v]}
+            with monitors.patched(UCGInitialize, "_preserve_previous", pp_factory):
+                gate = UCGInitialize(v, opt_params={"target_state": t, "preserve_previous": True})
+                circ = gate.definition
+            ctx.count("preserve:premises", key=("pres", n, t, v.tobytes()), nontrivial=True, sample=None)
+            ctx.monitor("preserve_premises")
+            bad = None
+            if len(log) != n:
+                bad = f"_preserve_previous called {len(log)} times for {n} levels"
+            for (k, r_gate, out, mux) in log:
+                if r_gate != t >> (k + 1):
+                    bad = bad or "the pulled-out entry is not the one on the target's path"
+                for idx in range(min(r_gate, len(mux))):
+                    if not np.array_equal(mux[idx], np.eye(2)):
+                        bad = bad or f"(a) fails: level {k}, multiplexer entry {idx} below the path is not the identity"
+                if r_gate < len(mux) and not np.array_equal(mux[r_gate], np.eye(2)):
+                    bad = bad or "the pulled-out entry was not replaced by the identity"
+                if (t >> k) & 1 and out[1, 0] != 0:
+                    bad = bad or f"(b) fails: level {k}, the pulled-out gate does not send |0> to a multiple of |0>"
+            # the pulled-out gates are controlled on every other qubit holding its target bit
+            for inst in circ.data:
+                op = inst.operation
+                if isinstance(op, ControlledGate) and op.num_ctrl_qubits == n - 1 and n >= 2:
+                    qs = [circ.find_bit(q).index for q in inst.qubits]
+                    for j, q in enumerate(qs[:-1]):
+                        if ((op.ctrl_state >> j) & 1) != ((t >> q) & 1):
+                            bad = bad or "a pulled-out gate is not controlled on the target bits of the other qubits"
+            if bad:
+                ctx.mismatch("C12 contract (preserve): " + bad, case)
+
+
 def run(ctx):
     monitor_run(ctx)
+    preserve_monitor(ctx)
     run_eval(ctx, "C12")
 
 
@@ -125,7 +185,7 @@ def replay(ctx, case):
 
 
 MANIFEST = dict(
-    text='Proof (MODULAR/PARTIAL): the 2x2 operators chosen by _build_multiplexor map the normalised child pair to e_bit for both target bits and for the vanishing-|0>-child case, and are unitary (C12_branch0/1, C12_diag0/1, C12_G0_unitary; any field with involution); induction over the levels with the carried diagonal: if the operators of every level disentangle their child pairs and the next children are diagonal * parent, the n levels map the vector to (last child)|t> for every n, t and vector (C12_level_step, C12_levels_target). Tie: every operator list built during a run is checked against these statements, every UCGate against the contract diag(_get_diagonal())*circuit = multiplexer, every _apply_diagonal result against diagonal * parent. Column t, preserve option and UCGE are evaluated.',
+    text='Proof (MODULAR/PARTIAL): the 2x2 operators chosen by _build_multiplexor map the normalised child pair to e_bit for both target bits and for the vanishing-|0>-child case, and are unitary (C12_branch0/1, C12_diag0/1, C12_G0_unitary; any field with involution); induction over the levels with the carried diagonal: if the operators of every level disentangle their child pairs and the next children are diagonal * parent, the n levels map the vector to (last child)|t> for every n, t and vector (C12_level_step, C12_levels_target). Tie: every operator list built during a run is checked against these statements, every UCGate against the contract diag(_get_diagonal())*circuit = multiplexer, every _apply_diagonal result against diagonal * parent. The preserve option: in preserve mode the pulled-out entry makes level k apply gp k only when every other qubit holds its target bit; if the multiplexer entries below the path are identities and gp k keeps |0> when target bit k is 1 (both checked exactly on every preserve-mode run with a vector vanishing below the target index, together with the control pattern of the pulled-out gates), every basis state below the target index is mapped to itself times a product of phases, for every n (C12_preserve_below_target, C12_levels_keep_basis). Column t, the preserve clause and UCGE are also evaluated directly.',
     note="Modelled, not verified: Qiskit UCGate synthesis and inverse(); preserve option; UCGE simplification.",
     technique='Coq/mathcomp proof + runtime contract monitors + operator-column evaluation',
     design_ref='DESIGN.md section 4, C12')
